@@ -298,6 +298,16 @@ func c19CheckStruct(b *impl.Binding, env *c19Env, settings []xsel.ContextApply, 
 			c19Junk(target.Elem().Field(0))
 			c19Junk(target.Elem().Field(2))
 		}
+		// "pointer fields freshly allocated": what an old pointer of the field
+		// points at belongs to whoever else holds that pointer - it must be neither
+		// re-used nor written through
+		var oldPtr reflect.Value
+		oldText := ""
+		if f0 := target.Elem().Field(0); depth == 3 && f0.Kind() == reflect.Pointer && !f0.IsNil() {
+			oldPtr = f0
+			oldText = fmt.Sprint(derefAll(f0))
+			oldPtr = reflect.ValueOf(f0.Interface()) // a copy of the pointer value
+		}
 		arg := target
 		if depth == 2 {
 			pp := reflect.New(target.Type())
@@ -321,6 +331,14 @@ func c19CheckStruct(b *impl.Binding, env *c19Env, settings []xsel.ContextApply, 
 			want.Field(1).SetString("keep")
 			if !deepEq(target.Elem(), want) {
 				return fmt.Sprintf("target = %+v, want %+v", derefAll(target.Elem()), derefAll(want)), ""
+			}
+			if oldPtr.IsValid() {
+				if now := fmt.Sprint(derefAll(oldPtr)); now != oldText {
+					return fmt.Sprintf("the value the field's old pointer points at was overwritten (%s -> %s): pointer fields are to be freshly allocated", oldText, now), ""
+				}
+				if f0 := target.Elem().Field(0); !f0.IsNil() && f0.Pointer() == oldPtr.Pointer() {
+					return "the pointer field still holds its old pointer: pointer fields are to be freshly allocated", ""
+				}
 			}
 			distinct = ft.String() + "|" + tag + "|" + fmt.Sprint(derefAll(want))
 		case stLenient:
